@@ -78,6 +78,21 @@ func vhCoherent(c *RepoCache, w *vhWorld, tag string) {
 		if lerr2 == nil && rerr2 == nil {
 			ls, rs := lb.Snapshot(), rbb.Snapshot()
 			rt.Assert(ls.Title == rs.Title && len(ls.Comments) == len(rs.Comments) && len(ls.Operations) == len(rs.Operations), "snapshot-as-in-rebuild"+tag)
+			// the incrementally maintained snapshot equals a compilation from scratch, down
+			// to the metadata attached to its operations
+			for k := range rs.Operations {
+				if k < len(ls.Operations) {
+					lm, rm := ls.Operations[k].AllMetadata(), rs.Operations[k].AllMetadata()
+					same := len(lm) == len(rm)
+					for key, v := range rm {
+						if lm[key] != v {
+							same = false
+						}
+					}
+					rt.Assert(same, "operation-metadata-as-in-rebuild"+tag)
+				}
+			}
+			rt.Assert(len(ls.Labels) == len(rs.Labels) && len(ls.Timeline) == len(rs.Timeline), "labels-timeline-as-in-rebuild"+tag)
 		}
 		// searchable: the index document exists
 		li, _ := w.r.GetIndex("bugs")
@@ -272,7 +287,10 @@ func VH_C11_edit() {
 	}
 	n := 1 + rt.Choose(2)
 	for k := 0; k < n; k++ {
-		switch rt.Choose(4) {
+		switch rt.Choose(5) {
+		case 4:
+			_, err = b.SetMetadata(b.Snapshot().Operations[0].Id(), map[string]string{"k": fmt.Sprintf("v%d", k)})
+			rt.Cover("set-metadata")
 		case 0:
 			_, _, err = b.AddComment("c")
 		case 1:
